@@ -93,6 +93,12 @@ def run(ctx):
     thorough = ctx.tier == "thorough"
     docs, meta = [], []  # meta: (kind, field, token, expect, how)  expect: ("exact", v) | ("reject",) | ("may", v) | ("k1",)
     values = txgen.BOUNDARY + [rng.getrandbits(rng.choice([8, 30, 53, 60, 64, 65, 128, 200, 256])) for _ in range(6 if not thorough else 40)]
+    # values around 2^k and 10^d for the widths and digit counts of the native integer types (u8..u128, 3/5/10/20/39 digits)
+    for k in (8, 16, 32, 64, 128):
+        values += [(1 << k) - 1, 1 << k, (1 << k) + 1]
+    for d_ in (3, 5, 10, 19, 20, 38, 39, 40, 77, 78):
+        values += [10 ** (d_ - 1), 10 ** d_ - 1] if 10 ** d_ - 1 < (1 << 256) else [10 ** (d_ - 1)] if 10 ** (d_ - 1) < (1 << 256) else []
+    values += [4 * 10 ** 38, (1 << 128) + 10 ** 20, 10 ** 39 - 1]
     # decimal strings whose LENGTH is that of a 32-byte hex word (64 digits) or of an address (40), and their neighbours
     values += [10 ** 63, 10 ** 63 + rng.randrange(10 ** 62), int("9" * 64), int("1" * 64), 10 ** 39 + 7, 10 ** 62, 10 ** 64, 10 ** 65 + 1]
     for kind in range(3):
